@@ -10,10 +10,10 @@ import (
 	"os/exec"
 	"path/filepath"
 
+	protoMetricsV1 "github.com/lindb/common/proto/gen/v1/linmetrics"
 	"github.com/lindb/lindb/index"
 	"github.com/lindb/lindb/models"
 	"github.com/lindb/lindb/pkg/verifhook"
-	protoMetricsV1 "github.com/lindb/common/proto/gen/v1/linmetrics"
 	"github.com/lindb/lindb/series/field"
 	"github.com/lindb/lindb/series/metric"
 	"github.com/lindb/lindb/series/tag"
@@ -769,6 +769,173 @@ func runConc(out *vh.Out, root string, id int, progs [][]int, sched []int, name 
 	out.Check(idx, fmt.Sprintf("check_conc %s %s\n %s", vh.List(ps), vh.NatList(full), vh.List(os_)))
 }
 
+// ---- concurrent callers creating the fields and tag keys of one new metric ----
+
+type sreq struct {
+	Kind string `json:"kind"` // "f" field, "t" tag key
+	Name int    `json:"name"`
+}
+
+func (r sreq) coq() string {
+	if r.Kind == "f" {
+		return fmt.Sprintf("(Schema.KF, %d)", r.Name)
+	}
+	return fmt.Sprintf("(Schema.KT, %d)", r.Name)
+}
+
+func runSchemaConc(out *vh.Out, root string, id int, progs [][]sreq, sched []int, name string) {
+	dir := filepath.Join(root, fmt.Sprintf("s%d", id))
+	defer os.RemoveAll(dir)
+	meta, err := index.NewMetricMetaDatabase("verifdb", filepath.Join(dir, "meta"))
+	if err != nil {
+		out.Violation(0, "open", err.Error(), nil)
+		return
+	}
+	defer meta.Close()
+	ns := []byte("ns1")
+	// another metric takes the first tag key id, so the ids of the metric under test are counted from base
+	warm, err := meta.GenMetricID(ns, []byte("warmup"))
+	if err != nil {
+		out.Violation(0, "warmup", err.Error(), nil)
+		return
+	}
+	t0, err := meta.GenTagKeyID(warm, []byte("warm"))
+	if err != nil {
+		out.Violation(0, "warmup", err.Error(), nil)
+		return
+	}
+	base := uint32(t0) + 1
+	mid, err := meta.GenMetricID(ns, []byte("fresh"))
+	if err != nil {
+		out.Violation(0, "metric", err.Error(), nil)
+		return
+	}
+	n := len(progs)
+	grant := make([]chan struct{}, n)
+	event := make(chan string)
+	results := make([][]string, n)
+	pos := make([]int, n)
+	for i := range grant {
+		grant[i] = make(chan struct{})
+	}
+	cur := -1
+	verifhook.Set(func(point string) {
+		if point != "index.schemastore.gen.beforeLock" {
+			return
+		}
+		i := cur
+		event <- "paused"
+		<-grant[i]
+	})
+	apiErr := false
+	for i := 0; i < n; i++ {
+		go func(i int) {
+			for _, rq := range progs[i] {
+				<-grant[i]
+				var v uint32
+				var err error
+				if rq.Kind == "f" {
+					var fid field.ID
+					fid, err = meta.GenFieldID(mid, field.Meta{Name: field.Name(fmt.Sprintf("f%d", rq.Name)), Type: field.SumField})
+					v = uint32(fid)
+				} else {
+					var kid tag.KeyID
+					kid, err = meta.GenTagKeyID(mid, []byte(fmt.Sprintf("k%d", rq.Name)))
+					v = uint32(kid) - base
+				}
+				if err != nil {
+					apiErr = true
+				}
+				results[i] = append(results[i], fmt.Sprintf("(%s, %d)", rq.coq(), v))
+				event <- "done"
+			}
+		}(i)
+	}
+	var full []int
+	stepThread := func(i int) {
+		full = append(full, i)
+		if pos[i] >= len(progs[i]) {
+			return
+		}
+		cur = i
+		grant[i] <- struct{}{}
+		if <-event == "done" {
+			pos[i]++
+		}
+	}
+	for _, i := range sched {
+		if i < n {
+			stepThread(i)
+		}
+	}
+	for {
+		busy := false
+		for i := 0; i < n; i++ {
+			if pos[i] < len(progs[i]) {
+				busy = true
+				stepThread(i)
+			}
+		}
+		if !busy {
+			break
+		}
+	}
+	verifhook.Set(nil)
+	if apiErr {
+		out.Violation(0, "api-error", "GenFieldID / GenTagKeyID failed in a concurrent schedule", nil)
+	}
+	// what is found afterwards
+	schema, err := meta.GetSchema(mid)
+	if err != nil {
+		out.Violation(0, "schema", err.Error(), nil)
+		return
+	}
+	seenReq := map[string]bool{}
+	var final []string
+	overlap := false
+	owner := map[string]int{}
+	for i := range progs {
+		for _, rq := range progs[i] {
+			key := rq.coq()
+			if o, ok := owner[key]; ok && o != i {
+				overlap = true
+			}
+			owner[key] = i
+			if seenReq[key] {
+				continue
+			}
+			seenReq[key] = true
+			found := "None"
+			if schema != nil {
+				if rq.Kind == "f" {
+					if fm, ok := schema.Fields.Find(field.Name(fmt.Sprintf("f%d", rq.Name))); ok {
+						found = fmt.Sprintf("Some %d", fm.ID)
+					}
+				} else if tm, ok := schema.TagKeys.Find(fmt.Sprintf("k%d", rq.Name)); ok {
+					found = fmt.Sprintf("Some %d", uint32(tm.ID)-base)
+				}
+			}
+			final = append(final, fmt.Sprintf("(%s, %s)", key, found))
+		}
+	}
+	var ps, os_ []string
+	kinds := map[string]bool{}
+	for i := 0; i < n; i++ {
+		var rs []string
+		for _, rq := range progs[i] {
+			rs = append(rs, rq.coq())
+			kinds[rq.Kind] = true
+		}
+		ps = append(ps, vh.List(rs))
+		os_ = append(os_, vh.List(results[i]))
+	}
+	idx := out.Case(map[string]interface{}{"kind": "schema-concurrent", "name": name, "progs": progs, "schedule": full, "results": results, "found": final},
+		len(kinds) == 2 || overlap)
+	out.Count("schema-concurrent-schedules")
+	out.CountN("schema-concurrent-microsteps", len(full))
+	out.Check(idx, fmt.Sprintf("check_schema %s %s\n %s\n %s", vh.List(ps), vh.NatList(full), vh.List(os_), vh.List(final)))
+}
+
 func main() {
 	cfg := vh.ParseFlags()
 	r := vh.NewRand(cfg.Seed)
@@ -786,6 +953,11 @@ func main() {
 	}
 	// the forced race: both callers miss, then both create
 	runConc(out, root, id, [][]int{{7}, {7}}, []int{0, 1, 0, 1}, "two callers create the same name")
+	id++
+	// the index worker (tag key) and the metadata worker (fields) of the first row of a metric
+	runSchemaConc(out, root, id, [][]sreq{{{"f", 1}, {"f", 3}}, {{"t", 7}}}, []int{0, 1, 1, 0, 0, 0}, "fields and tag key of a new metric created at once")
+	id++
+	runSchemaConc(out, root, id, [][]sreq{{{"f", 1}}, {{"f", 1}}, {{"f", 2}}}, []int{0, 1, 2, 2, 1, 0}, "three callers, two of them the same field")
 	id++
 	nConc := cfg.N / 3
 	for i := 0; i < cfg.N-nConc; i++ {
@@ -805,6 +977,25 @@ func main() {
 			sched = append(sched, r.Intn(nt))
 		}
 		runConc(out, root, id, progs, sched, "random")
+		id++
+	}
+	for i := 0; i < nConc; i++ {
+		nt := r.Range(2, 3)
+		progs := make([][]sreq, nt)
+		for t := range progs {
+			for j := r.Range(1, 3); j > 0; j-- {
+				if r.Chance(60) {
+					progs[t] = append(progs[t], sreq{"f", r.Intn(3)})
+				} else {
+					progs[t] = append(progs[t], sreq{"t", r.Intn(2)})
+				}
+			}
+		}
+		var sched []int
+		for j := r.Range(0, 10); j > 0; j-- {
+			sched = append(sched, r.Intn(nt))
+		}
+		runSchemaConc(out, root, id, progs, sched, "random")
 		id++
 	}
 	out.Notes = append(out.Notes, "crash = copy of the database directories taken at an operation boundary or at a scheduling point inside MetricMetaDatabase.Flush; the image is then opened as the recovered database")
